@@ -58,9 +58,9 @@ SPEC = {
     "agrees": "C10.agrees",
     "in_domain": "C10.in_domain",
     "model_prop": "fun k => implb (C10.in_domain k) (C10.model_prop k)",
-    "n_quick": 640,
+    "n_quick": 480,
     "n_thorough": 200000,
-    "shard": 41,
+    "shard": 31,
     "post": sweep_post,
     "rule": "see harness/props/c10.go: intervalsPerDay of every utils.Timeframes entry (1Sec >= 30%); offsets at interval start/end, whole seconds +-20 ns, "
             "exact tick positions +-20 ns, .5/.99999999x fractions, uniform; second offset for the order test; arbitrary uint32 tick counts decoded; "
